@@ -817,13 +817,13 @@ fn evaluate_case(
             Some(else_val) => {
                 // Coerce types if they differ (e.g., Int64 ELSE vs Float64 THEN)
                 let (then_arr, else_arr) = if then_value.data_type() != else_val.data_type() {
-                    let target = if then_value.data_type() == &arrow::datatypes::DataType::Float64
-                        || else_val.data_type() == &arrow::datatypes::DataType::Float64
-                    {
-                        arrow::datatypes::DataType::Float64
-                    } else {
-                        then_value.data_type().clone()
-                    };
+                    // The same rule the planner types the CASE with: never the
+                    // narrower branch's type (an INTEGER THEN with a BIGINT
+                    // ELSE cast the BIGINT values down to NULLs).
+                    let target = crate::planner::case_common_type(
+                        then_value.data_type(),
+                        else_val.data_type(),
+                    );
                     (
                         arrow::compute::cast(&then_value, &target)?,
                         arrow::compute::cast(&else_val, &target)?,
